@@ -1103,6 +1103,7 @@ def task_text_write_wiring(scratch, tier, seed, logdir):
             ob.fail("inconclusive", f"formats seen: {sorted(seen)}")
         f = mir.find_fn(fns, r"^format_spectrum$")
         n = 0
+        through = False
         for p in mir.Exec(f, [], max_paths=500).run({"_1": ("ref", "$s"), "$s": V("spectrum", "U"), "_2": V("sep", "U"), "_3": V("precision", "int")}):
             if p.end != "return":
                 continue
@@ -1119,6 +1120,7 @@ def task_text_write_wiring(scratch, tier, seed, logdir):
             for e in p.state.events:
                 if not re.search(r"from_usize$", e[0]) and any(show(a) == "precision" for a in e[1]):
                     ob.fail("violation", f"the precision is passed through {e[0][:80]} before formatting")
+                    through = True
         c = mir.find_fn(fns, r"^format_spectrum::\{closure#0\}$")
         for p in mir.Exec(c, [], max_paths=500).run({"_1": ("ref", "$cl"), "$cl": ("tup", (V("sep_ref", "U"), ("ref", "$prec"))), "$prec": V("precision", "int"),
                                                      "_2": V("acc", "U"), "_3": ("ref", "$x"), "$x": V("x", "real")}):
@@ -1131,13 +1133,35 @@ def task_text_write_wiring(scratch, tier, seed, logdir):
                         ob.fail("violation", "later values are not printed with the requested precision but with " + show(e[1][0])[:100])
                 elif any(show(a) == "precision" for a in e[1]):
                     ob.fail("violation", f"the precision is passed through {e[0][:80]} before formatting")
-        if n < 2:
+                    through = True
+        if n < 2 and not through:
             ob.fail("inconclusive", "precision arguments of the two format calls not found")
+        if through:
+            # what that function does with it is not modelled: a concrete run of the real writer decides
+            ob.d["native_test"] = dict(crate="sfs-core", file="core/src/spectrum/io/text.rs", name="kv_text_values_exact_precision", code=TEXT_NATIVE_TEST)
         ob.d["nonvacuous"] = n >= 2 and seen == {"text", "npy"}
         ob.d["queries"] += n
     except (LookupError, ValueError, RuntimeError, KeyError, IndexError) as e:
         ob.fail("inconclusive", f"translator: {type(e).__name__}: {e}")
     return [ob.done()]
+
+
+TEXT_NATIVE_TEST = r"""
+    #[test]
+    fn kv_text_values_exact_precision() {
+        let values = vec![
+            0.0, 1.0, 0.5, 2.0, 1e-7, 123456.789, 0.1 + 0.2, 1e15, 9007199254740992.0, 9007199254740993.0 * 2.0,
+            1e19, 1.8446744073709552e19, 1e22, 1e300, f64::MAX, f64::MIN_POSITIVE, 4.9e-324, 0.999999999999, 2.5, 3.5,
+        ];
+        let n = values.len();
+        let scs = Scs::new(values.clone(), Shape(vec![n])).unwrap();
+        for precision in (0..=24).chain([40, 80, 330]) {
+            let got = format_spectrum(&scs, " ", precision);
+            let want = values.iter().map(|x| format!("{x:.precision$}")).collect::<Vec<_>>().join(" ");
+            assert_eq!(got, want, "values printed with precision {precision}");
+        }
+    }
+"""
 
 
 def task_site_builder_build(scratch, tier, seed, logdir):
@@ -1675,7 +1699,213 @@ def task_read_site_wiring(scratch, tier, seed, logdir):
         ob.d["queries"] += len(paths)
     except (LookupError, ValueError, RuntimeError, KeyError, IndexError) as e:
         ob.fail("inconclusive", f"translator: {type(e).__name__}: {e}")
-    return [ob.done()]
+    out = [ob.done()]
+
+    # one iteration of the sample loop: whose counts are updated
+    ob = Ob("read_site_sample_lookup", ["input::site::Reader::read_site (one iteration of the sample loop)"],
+            "every path through one iteration of the per-sample loop; calls uninterpreted; the Kani harnesses replace sample::Map by a table, so which lookup the loop performs is decided here")
+    try:
+        SM = fld["sample_map"]
+        R = r"site::reader::Reader::reset!mut0\(reader\)"
+        item = r"as_Some\(<Zip<.*?> as Iterator>::next\(.*?::zip::<.*?>\(.*?::iter\(.*?::samples\(.*?\)\), field\(as_Read\(.*?::read_genotypes\(.*?\)\), 0\)\)\)\)\)"
+        want = rf"field\(as_Some\(Option::<population::Id>::map::<usize, .*?>\(input::sample::Map::get_population_id\(refto\(field\({R}, {SM}\)\), field\(field\({item}, 0\), 0\)\), <usize as From<population::Id>>::from\)\), 0\)"
+        n_upd = 0
+        for p in paths:
+            if p.end != "loopback":
+                continue
+            for name, args in [(e[0], e[1]) for e in p.state.events]:
+                if not re.search(r"Count as IndexMut<usize>>::index_mut$", name):
+                    continue
+                n_upd += 1
+                tgt, idx = show(args[0]), show(args[1])
+                if not re.fullmatch(rf"refto\(field\({R}, (?:{C}|{T})\)\)", tgt):
+                    ob.fail("inconclusive", "a Count other than self.counts / self.totals is updated: " + tgt[:120])
+                elif not re.fullmatch(want, idx):
+                    ob.fail("violation", "the population whose counts are updated is not sample_map.get_population_id(<the record's sample name>): " + idx[:200])
+        if n_upd < 2:
+            ob.fail("inconclusive", f"{n_upd} count updates found in the loop body")
+        ob.d["nonvacuous"] = n_upd >= 2
+        ob.d["queries"] += n_upd
+        if ob.d["status"] == "violation":
+            ob.d["native_test"] = dict(crate="sfs-core", file="core/src/input/site/reader.rs", name="kv_read_site_sample_lookup", code=READ_SITE_NATIVE_TEST)
+    except (LookupError, ValueError, RuntimeError, KeyError, IndexError, NameError) as e:
+        ob.fail("inconclusive", f"translator: {type(e).__name__}: {e}")
+    out.append(ob.done())
+    return out
+
+
+READ_SITE_NATIVE_TEST = r"""
+    struct KvMem {
+        samples: Vec<Sample>,
+        record: Option<Vec<genotype::Result>>,
+    }
+    impl genotype::Reader for KvMem {
+        fn current_contig(&self) -> &str {
+            "c"
+        }
+        fn current_position(&self) -> usize {
+            1
+        }
+        fn read_genotypes(&mut self) -> ReadStatus<Vec<genotype::Result>> {
+            match self.record.take() {
+                Some(r) => ReadStatus::Read(r),
+                None => ReadStatus::Done,
+            }
+        }
+        fn samples(&self) -> &[Sample] {
+            &self.samples
+        }
+    }
+
+    #[test]
+    fn kv_read_site_sample_lookup() {
+        use crate::input::genotype::Genotype;
+        let names = ["a", "b", "c", "d"];
+        let gts = [Genotype::Two, Genotype::One, Genotype::Zero, Genotype::Two];
+        // (sample, population) lists in several orders, using all or some of the input's samples
+        let maps: Vec<Vec<(&str, &str)>> = vec![
+            vec![("a", "p"), ("b", "p"), ("c", "q"), ("d", "q")],
+            vec![("d", "p"), ("c", "p"), ("b", "q"), ("a", "q")],
+            vec![("c", "p"), ("a", "q"), ("d", "p"), ("b", "q")],
+            vec![("b", "p"), ("a", "q"), ("c", "q"), ("d", "r")],
+            vec![("d", "p"), ("a", "q")],
+            vec![("c", "p")],
+        ];
+        for list in maps {
+            let map = sample::Map::from_iter(list.iter().map(|(s, p)| (s.to_string(), Some(p.to_string()))));
+            // oracle: population ids by first appearance in the list
+            let mut pops: Vec<&str> = Vec::new();
+            for (_, p) in &list {
+                if !pops.contains(p) {
+                    pops.push(p);
+                }
+            }
+            let mut alt = vec![0usize; pops.len()];
+            for (i, n) in names.iter().enumerate() {
+                if let Some((_, p)) = list.iter().find(|(s, _)| s == n) {
+                    alt[pops.iter().position(|q| q == p).unwrap()] += gts[i] as u8 as usize;
+                }
+            }
+            let mem = KvMem {
+                samples: names.iter().map(|n| Sample::from(*n)).collect(),
+                record: Some(gts.iter().map(|g| genotype::Result::Genotype(*g)).collect()),
+            };
+            let mut reader = Reader::new_unchecked(Box::new(mem), map, None);
+            match reader.read_site() {
+                ReadStatus::Read(Site::Standard(counts)) => {
+                    assert_eq!(counts.as_ref(), &alt[..], "ALT counts per population for the sample list {list:?}")
+                }
+                _ => panic!("expected a standard site for {list:?}"),
+            }
+        }
+    }
+"""
+
+
+def _subterms(t):
+    yield t
+    if isinstance(t, tuple):
+        for a in t:
+            if isinstance(a, tuple):
+                yield from _subterms(a)
+
+
+GENOTYPE_READER_NATIVE_TEST = r"""
+    #[test]
+    fn kv_vcf_reader_decodes_every_record() {
+        use crate::input::genotype::{Reader as _, Skipped};
+        let text = "##fileformat=VCFv4.3\n##contig=<ID=1>\n##FORMAT=<ID=GT,Number=1,Type=String,Description=\"Genotype\">\n\
+#CHROM\tPOS\tID\tREF\tALT\tQUAL\tFILTER\tINFO\tFORMAT\ta\tb\tc\td\n\
+1\t1\t.\tA\tC\t.\t.\t.\tGT\t0/0\t0|1\t1/1\t./.\n\
+1\t2\t.\tA\t.\t.\t.\t.\tGT\t0/0\t./.\t0|0\t.|0\n\
+1\t3\t.\tA\tC,G\t.\t.\t.\tGT\t0/2\t1/2\t2|2\t1|0\n\
+1\t4\t.\tA\t.\t.\t.\t.\tGT\t0/1\t1/1\t0/0\t0/0\n";
+        let g = |k: u8| match k {
+            0 => genotype::Result::Genotype(Genotype::Zero),
+            1 => genotype::Result::Genotype(Genotype::One),
+            2 => genotype::Result::Genotype(Genotype::Two),
+            3 => genotype::Result::Skipped(Skipped::Missing),
+            _ => genotype::Result::Skipped(Skipped::Multiallelic),
+        };
+        let want = [[0u8, 1, 2, 3], [0, 3, 0, 3], [4, 4, 4, 1], [1, 2, 0, 0]];
+        let mut reader = Reader::new(text.as_bytes()).expect("header parses");
+        for (i, row) in want.iter().enumerate() {
+            match super::super::Reader::read_genotypes(&mut reader) {
+                ReadStatus::Read(got) => {
+                    let w: Vec<_> = row.iter().map(|&k| g(k)).collect();
+                    assert_eq!(got, w, "genotypes of record {}", i + 1);
+                }
+                ReadStatus::Error(e) => panic!("record {}: {e}", i + 1),
+                ReadStatus::Done => panic!("record {} missing", i + 1),
+            }
+        }
+        assert!(matches!(super::super::Reader::read_genotypes(&mut reader), ReadStatus::Done));
+    }
+"""
+
+
+def task_genotype_reader_wiring(scratch, tier, seed, logdir):
+    """C01 / C08: the VCF and BCF genotype readers answer every record with the genotypes decoded from
+    that record's GT fields (noodles' Genotypes::genotypes), each converted by
+    From<Option<VcfGenotype>> for genotype::Result; Done only for a zero-byte read; errors are passed on."""
+    fns = fns_for(scratch, "sfs-core")
+    out = []
+    for kind, readfn in (("vcf", "read_record"), ("bcf", "read_lazy_record")):
+        ob = Ob(f"genotype_reader_wiring_{kind}", [f"input::genotype::reader::{kind}::Reader::read_genotypes (inherent + trait + closures)"],
+                "every path; noodles' record reader and GT decoder are uninterpreted (the decoding itself is noodles')")
+        try:
+            cands = [f for f in fns if re.search(rf"reader/{kind}\.rs>::read_genotypes", mir.norm_name(f.name))]
+            if not cands:
+                raise LookupError("no read_genotypes functions")
+            closures = {}
+            top = []
+            for f in cands:
+                if "{closure" in f.name:
+                    ps = [p for p in mir.Exec(f, [], max_paths=200).run({"_1": V("cl", "U"), "_2": V("arg", "U")}) if p.end == "return"]
+                    closures.setdefault(mir.norm_name(f.name), []).extend(show(p.ret) for p in ps)
+                else:
+                    top.append(f)
+            allclos = " ".join(r for v in closures.values() for r in v)
+            n_read = n_conv = 0
+            for f in top:
+                ps = mir.Exec(f, [], max_paths=500).run({"_1": ("ref", "$self"), "$self": V("self", "U")})
+                ob.d["queries"] += len(ps)
+                for p in ps:
+                    if p.end != "return":
+                        continue
+                    r = show(p.ret)
+                    if r.startswith("ctor:Done("):
+                        zero = [c for t, c in p.state.pc if re.fullmatch(rf"field\(as_Ok\(noodles_{kind}::Reader::<R>::{readfn}\(.*\)\), 0\)", show(t))]
+                        if zero != [("eq", "0")]:
+                            ob.fail("violation", "Done is answered on a path other than 'the record reader returned Ok(0)'")
+                    elif r.startswith("ctor:Read("):
+                        n_read += 1
+                        decoded = "Genotypes::genotypes(" in r or ("and_then" in r and "Genotypes::genotypes(arg)" in allclos)
+                        if not decoded or f"{readfn}!mut" not in r:
+                            ob.fail("violation", "a record is answered with genotypes that are not decoded from that record's GT fields: " + r[:200])
+                    elif r.startswith("ctor:Error("):
+                        pass
+                    elif re.match(r"ReadStatus::<.*?>::map::<", r):
+                        if not re.search(r"::read_genotypes\(self\), ZeroSized", r):
+                            ob.fail("inconclusive", "trait read_genotypes: unrecognised form " + r[:160])
+                    elif re.fullmatch(rf"{kind}::Reader::<R>::read_genotypes\(self\)", r):
+                        pass
+                    else:
+                        ob.fail("inconclusive", "unrecognised return " + r[:160])
+            conv = "<input::genotype::Result as From<Option<noodles_vcf::record::genotypes::sample::value::Genotype>>>::from"
+            texts = allclos + " " + " ".join(f.text for f in top)
+            n_conv = texts.count("genotype::Result as From<Option<")
+            if n_read < 1:
+                ob.fail("inconclusive", "no path answers Read")
+            if n_conv < 1:
+                ob.fail("violation", "the decoded genotypes are not converted by From<Option<VcfGenotype>> for genotype::Result")
+            ob.d["nonvacuous"] = n_read >= 1
+            if ob.d["status"] == "violation" and kind == "vcf":
+                ob.d["native_test"] = dict(crate="sfs-core", file="core/src/input/genotype/reader/vcf.rs", name="kv_vcf_reader_decodes_every_record", code=GENOTYPE_READER_NATIVE_TEST)
+        except (LookupError, ValueError, RuntimeError, KeyError, IndexError) as e:
+            ob.fail("inconclusive", f"translator: {type(e).__name__}: {e}")
+        out.append(ob.done())
+    return out
 
 
 def task_main_exit(scratch, tier, seed, logdir):
@@ -1763,6 +1993,7 @@ TASKS = {
     "small_kernels": task_small_kernels,
     "translator_validation": task_translator_validation,
     "read_site_wiring": task_read_site_wiring,
+    "genotype_reader_wiring": task_genotype_reader_wiring,
     "shape_closures": task_shape_closures,
 }
 
